@@ -773,3 +773,148 @@ Example C14_addr_nonvacuous :
   a_region (fun _ => true) find_lit buf4 [47; 102; 111; 111; 47] k_none = Some (false, 1%Z, 2%Z, mk_kst [102; 111; 111] 1%Z [] 0%Z) /\
   a_region (fun _ => true) find_lit buf4 [50] k_none = Some (false, 1%Z, 2%Z, k_none).
 Proof. vm_compute. repeat split; reflexivity. Qed.
+
+(* ------------------------------------------------------------------------------------------------
+   COMPOSITION: the matcher is the C text too (coq/TrCmp14Loop.v, TrCmp14.v, TrCmp14Full.v).
+   C14_tr_subst_line above is relative to an oracle for rstr_find (the calls written in ex.c are on the extern index
+   X_rstr_find: `@extern ex.c rstr_find`).  Below the oracle is THE TRANSLATED rstr_find of rstr.c (TrCmp14.ext_is_find:
+   ext X_rstr_find args m = callf cprog fuelF _ F_rstr_find args m; TrCmp14.ext_link is the smallest such call semantics), for
+   the LITERAL path of rstr.c (rs->rs == NULL: patterns [^][\<]literal[\>][$], with or without ignore-case), where
+   Properties_C12.C12_tr_rstr_find proves what rstr_find computes.
+   (1) TrSubst.find_oracle is FALSE of the real function: it asks for the model's answer on every memory that holds the line
+       and offs[32]; rstr_find also reads *re and re->str.  The strongest true variant is TrCmp14Loop.find_oracle_ctx: the same
+       for the memories the loop reaches (TrSubst.Ctx: the entry memory, grown, every old block but offs untouched);
+       C14_tr_subst_line_ctx is C14_tr_subst_line under that weaker hypothesis (same loop proof, TrSubst.v unchanged).
+   (2) C14_tr_rstr_find_is_oracle: the translated rstr_find satisfies it.
+   (3) C14_tr_subst_line_literal_full: pattern string -> rstr_make (C text) -> loop (C text) with rstr_find (C text) = the
+       model with SubstEngineDefs.engine_find, the matcher of C14_structure_engine / C14_utf8_engine; C14_tr_literal_chain_spec:
+       = the decomposition into successive leftmost matches of C14_structure, every search answered by C12's declarative spec.
+   Side conditions, exactly: line <= 5*10^8 bytes, NUL-free; the rewritten line <= 5*10^8; pattern < 2^31 - 1; fuel of the loop
+   >= |line| + 1 and > |rep|, of rstr_find > |line| + 17 and > |pattern|, of rstr_make > |pattern|; the first search is made with
+   flags 0, every later one with RE_NOTBOL = 2 (es_cond); after an empty match MAX(1, uc_len) bytes are stepped over (es_step);
+   TrSubst.find_ptr_ok: the pointers ln + offs[2g] replace() forms stay in the line's block -- on the literal path groups 1..15
+   are unset, so \1..\9 in the replacement form ln - 1: excluded when the match is at the very start of the line (the finding
+   of fixes/C14-replace-unset-group-pointer.patch); C14_tr_literal_ptr_ok: it holds when the replacement refers to \0 only. *)
+From NV Require RstrDefs TrRstr TrRstrMake.
+From NV Require Import CLite CLiteProps GenCFuncs CLiteTac CLiteExt TrSbuf TrSubst TrCmp14Loop TrCmp14 TrCmp14Full.
+Local Open Scope Z_scope.
+
+Theorem C14_tr_find_oracle_false_of_rstr_find : forall ext fuelF dF find,
+  ext_is_find ext fuelF dF -> ~ find_oracle ext find 0 1 2 0 [97; 10]%N.
+Proof. exact find_oracle_false. Qed.
+Print Assumptions C14_tr_find_oracle_false_of_rstr_find.
+
+Theorem C14_tr_subst_line_ctx : forall ext find (m0 : mem) bl bo bsp bs rb rz fo (line rep flags : bytes) d fuel a0 a1 a2 a3 a6 a7 a8 a9 a11,
+  str_at m0 bl line -> nonul line -> Z.of_nat (length line) <= 500000000 ->
+  cstr_in m0 G_xrep 0 rep -> nonul rep ->
+  nth_error m0 bsp = Some [VPtr bs fo] -> cstr_in m0 bs fo flags -> nonul flags ->
+  (bo < length m0)%nat -> (exists blk0, nth_error m0 bo = Some blk0 /\ length blk0 = 32%nat) ->
+  bl <> bo /\ G_xrep <> bo /\ bsp <> bo /\ bs <> bo ->
+  find_oracle_ctx ext find m0 bl bo rb rz line -> find_ptr_ok find line rep ->
+  forall lv, (S (length line) <= fuel)%nat -> (length rep < fuel)%nat ->
+  let st o r l m := mkst [a0; a1; a2; a3; VPtr rb rz; VPtr bo 0; a6; a7; a8; a9; VPtr bsp 0; a11; VPtr bl (Z.of_nat o); r; l] m in
+  match subst_line find rep (has_g flags) line with
+  | Unchanged =>
+      exists lv' mk', exec (callx ext cprog fuel (S (S (S d)))) fuel es_while (st 0%nat (VInt 0) lv m0)
+                      = ONormal (st 0%nat (VInt 0) lv' mk') /\ Ctx m0 bo mk'
+  | Changed new =>
+      Z.of_nat (length new) <= 500000000 ->
+      exists o' p lv' mk' cells,
+        exec (callx ext cprog fuel (S (S (S d)))) fuel (SSeq es_while es_str) (st 0%nat (VInt 0) lv m0)
+        = ONormal (st o' (VPtr p 0) lv' mk') /\ Ctx m0 bo mk' /\ Rinv m0 mk' p cells /\ map byte_of cells = new
+  | SOOB | SFuel => True
+  end.
+Proof. exact subst_line_ok_c. Qed.
+Print Assumptions C14_tr_subst_line_ctx.
+
+(* the translated rstr_find, on a struct of the fast path that lies in the entry memory outside offs, answers as the model's
+   literal matcher (sixteen groups: group 0 = the match, groups 1..15 = -1) on every memory the loop reaches *)
+Theorem C14_tr_rstr_find_is_oracle : forall ext fuelF dF (m0 : mem) bl bo rb bsl line lit ic lb le wb we,
+  ext_is_find ext fuelF dF ->
+  nth_error m0 rb = Some (TrRstr.rstr_block bsl ic lb le wb we) -> str_at m0 bsl lit -> nonul lit -> nonul line ->
+  rb <> bo -> bsl <> bo ->
+  int_ok ic -> int_ok lb -> int_ok le -> int_ok wb -> int_ok we ->
+  Z.of_nat (length lit) <= 2147483647 -> Z.of_nat (length line) <= 500000000 ->
+  (length lit < fuelF)%nat -> (length line + 17 < fuelF)%nat ->
+  find_oracle_ctx ext (lit_find (TrRstr.rs_of lit ic lb le wb we)) m0 bl bo rb 0 line.
+Proof. exact lit_oracle. Qed.
+Print Assumptions C14_tr_rstr_find_is_oracle.
+
+Theorem C14_tr_subst_line_literal_full : forall ext fuelF dF (m : mem) bp (pat : bytes) flg rs bl bo bsp bs fo (line rep flags : bytes)
+    d fuel dM fuelM dE a0 a1 a2 a3 a6 a7 a8 a9 a11,
+  ext_is_find ext fuelF dF ->
+  let ic := TrRstr.nz (Z.land flg GenConsts.RE_ICASE) in
+  str_at m bp pat -> nonul pat -> nth_error m TrRstrMake.G_meta = Some TrRstrMake.gb_meta -> Z.of_nat (length pat) < 2147483647 ->
+  RstrDefs.rstr_simple ic pat = Some rs ->
+  str_at m bl line -> nonul line -> Z.of_nat (length line) <= 500000000 ->
+  cstr_in m G_xrep 0 rep -> nonul rep ->
+  nth_error m bsp = Some [VPtr bs fo] -> cstr_in m bs fo flags -> nonul flags ->
+  (bo < length m)%nat -> (exists blk0, nth_error m bo = Some blk0 /\ length blk0 = 32%nat) ->
+  bl <> bo /\ G_xrep <> bo /\ bsp <> bo /\ bs <> bo ->
+  (length pat < fuelM)%nat -> (length pat < fuelF)%nat -> (length line + 17 < fuelF)%nat ->
+  let find := SubstEngineDefs.engine_find dE ic pat in
+  find_ptr_ok find line rep ->
+  forall lv, (S (length line) <= fuel)%nat -> (length rep < fuel)%nat ->
+  let rb := S (length m) in
+  let st o r l mm := mkst [a0; a1; a2; a3; VPtr rb 0; VPtr bo 0; a6; a7; a8; a9; VPtr bsp 0; a11; VPtr bl (Z.of_nat o); r; l] mm in
+  exists m0,
+    callf cprog fuelM (S (S dM)) F_rstr_make [VPtr bp 0; VInt flg] m = Ok (VPtr rb 0, m0) /\
+    (length m <= length m0)%nat /\ (forall b, (b < length m)%nat -> nth_error m0 b = nth_error m b) /\
+    match subst_line find rep (has_g flags) line with
+    | Unchanged =>
+        exists lv' mk', exec (callx ext cprog fuel (S (S (S d)))) fuel es_while (st 0%nat (VInt 0) lv m0)
+                        = ONormal (st 0%nat (VInt 0) lv' mk') /\ Ctx m0 bo mk'
+    | Changed new =>
+        Z.of_nat (length new) <= 500000000 ->
+        exists o' p lv' mk' cells,
+          exec (callx ext cprog fuel (S (S (S d)))) fuel (SSeq es_while es_str) (st 0%nat (VInt 0) lv m0)
+          = ONormal (st o' (VPtr p 0) lv' mk') /\ Ctx m0 bo mk' /\ Rinv m0 mk' p cells /\ map byte_of cells = new
+    | SOOB | SFuel => True
+    end.
+Proof. exact tr_subst_line_literal_full. Qed.
+Print Assumptions C14_tr_subst_line_literal_full.
+
+(* what `Changed new` means for that matcher: C14_structure's chain for the literal matcher, whose every answer on a rest that ends
+   in the line's newline is the LEFTMOST position where C12's declarative spec of the anchored literal holds *)
+Theorem C14_tr_literal_chain_spec : forall dE ic pat rs rep gflag line new,
+  RstrDefs.rstr_simple ic pat = Some rs ->
+  subst_line (SubstEngineDefs.engine_find dE ic pat) rep gflag line = Changed new ->
+  (exists segs tail, segs <> [] /\ Chain (lit_find rs) rep gflag false line segs tail /\
+     line = flat_old segs ++ tail /\ new = flat_new segs ++ tail /\ (gflag = false -> length segs = 1%nat)) /\
+  (forall content nb, ~ In 0%N content -> ~ In 10%N content -> ~ In 10%N (RstrDefs.r_str rs) ->
+     lit_find rs (content ++ [10%N]) nb =
+     match RstrDefs.spec_find (RstrDefs.spat_of rs) (RstrDefs.r_icase rs) nb content with
+     | Some i => Some (RstrDefs.rstr_groups 16 (Z.of_nat i) (Z.of_nat (i + length (RstrDefs.r_str rs))))
+     | None => None
+     end).
+Proof. exact literal_chain_spec. Qed.
+Print Assumptions C14_tr_literal_chain_spec.
+
+Theorem C14_tr_literal_ptr_ok : forall rs line rep, Forall (fun g => g = 0%nat) (refs rep) -> find_ptr_ok (lit_find rs) line rep.
+Proof. exact lit_find_ptr_ok. Qed.
+Print Assumptions C14_tr_literal_ptr_ok.
+
+(* non-vacuity: rstr_make, the loop with rstr_find LINKED IN (ext_link: no matcher oracle anywhere), sbuf_str and sbuf_buf RUN
+   (TrCmp14Full.sl_run_linked: the program's globals with xrep := the replacement, the line, offs[32] indeterminate, the cell of `s`,
+   the flags, the pattern):  s/ab/X/g on "abcabab" -> "XcXX";  s/ab/X/ -> "Xcabab";  s/^ab/X/g on "abab" -> "Xab" (RE_NOTBOL);
+   s/\<ab\>/[\0]/g on "ab abc ab" -> "[ab] abc [ab]";  s/AB/X/g with ignore-case on "abcaB" -> "XcX";  s/zz/X/g: r stays NULL.
+   The model agrees, and the hypotheses of C14_tr_subst_line_literal_full are satisfiable. *)
+Local Open Scope N_scope.
+Example C14_tr_subst_line_linked_runs :
+  sl_run_linked [97;98] [88] [103] [97;98;99;97;98;97;98;10] 0%Z 100%nat = Ok (Some [88;99;88;88;10]) /\
+  subst_line (SubstEngineDefs.engine_find 256 false [97;98]) [88] (has_g [103]) [97;98;99;97;98;97;98;10] = Changed [88;99;88;88;10] /\
+  sl_run_linked [97;98] [88] [] [97;98;99;97;98;97;98;10] 0%Z 100%nat = Ok (Some [88;99;97;98;97;98;10]) /\
+  sl_run_linked [94;97;98] [88] [103] [97;98;97;98;10] 0%Z 100%nat = Ok (Some [88;97;98;10]) /\
+  subst_line (SubstEngineDefs.engine_find 256 false [94;97;98]) [88] (has_g [103]) [97;98;97;98;10] = Changed [88;97;98;10] /\
+  sl_run_linked [92;60;97;98;92;62] [91;92;48;93] [103] [97;98;32;97;98;99;32;97;98;10] 0%Z 100%nat
+    = Ok (Some [91;97;98;93;32;97;98;99;32;91;97;98;93;10]) /\
+  sl_run_linked [65;66] [88] [103] [97;98;99;97;66;10] 1%Z 100%nat = Ok (Some [88;99;88;10]) /\
+  subst_line (SubstEngineDefs.engine_find 256 true [65;66]) [88] (has_g [103]) [97;98;99;97;66;10] = Changed [88;99;88;10] /\
+  sl_run_linked [122;122] [88] [103] [97;98;99;10] 0%Z 100%nat = Ok None /\
+  ext_is_find (ext_link 100 6) 100 6 /\
+  RstrDefs.rstr_simple false [97;98] = Some (RstrDefs.mk_rstr [97;98] false false false false false) /\
+  find_ptr_ok (lit_find (RstrDefs.mk_rstr [97;98] false false false false false)) [97;98;99;97;98;97;98;10] [88].
+Proof.
+  do 9 (split; [vm_compute; reflexivity|]). split; [exact (ext_link_is_find 100 6)|]. split; [vm_compute; reflexivity|].
+  apply lit_find_ptr_ok. constructor.
+Qed.
